@@ -1,15 +1,67 @@
-"""C03 - family A clauses + range-limited outputs are stored as the clamp result (R-CLAMP)."""
+"""C03 - family A clauses + range-limited outputs are stored as the clamp result (R-CLAMP) + parameter-family
+discipline of the gain/bias type dispatch (R-FAMILY)."""
 
+import ast
+
+from ..report import Finding
 from ..rules import r_clamp
+from ..srcmodel import unparse
 from ..tables import clamp_tables
 from . import family_a
+
+# (dispatch enum, member) -> parameter family the branch must NOT read. GainType.X computes the gain from gainprm,
+# BiasType.X computes the bias from biasprm; the shared member names (AFFINE, MUSCLE) are where the two are mixed up
+# unnoticed (the <muscle> and <position>/<velocity> shortcuts write identical or complementary gainprm/biasprm).
+# DCMOTOR is a genuinely shared parameter block (the bias branch reads R, K from gainprm): tabled, not checked.
+FAMILY_FORBIDDEN = {
+  ("GainType", "FIXED"): "biasprm",
+  ("GainType", "AFFINE"): "biasprm",
+  ("GainType", "MUSCLE"): "biasprm",
+  ("BiasType", "AFFINE"): "gainprm",
+  ("BiasType", "MUSCLE"): "gainprm",
+}
+FAMILY_FUNCS = ("forward._actuator_force", "derivative._qderiv_actuator_passive_vel")
+
+
+def check_param_families(db, res) -> int:
+  n = 0
+  for key in FAMILY_FUNCS:
+    fi = db.sm.func(key)
+    for node in ast.walk(fi.node):
+      if not isinstance(node, ast.If):
+        continue
+      t = node.test
+      members = []
+      for c in ast.walk(t):
+        if isinstance(c, ast.Compare) and len(c.ops) == 1 and isinstance(c.ops[0], ast.Eq):
+          for side in (c.left, c.comparators[0]):
+            if isinstance(side, ast.Attribute) and isinstance(side.value, ast.Name) and (side.value.id, side.attr) in FAMILY_FORBIDDEN:
+              members.append((side.value.id, side.attr))
+      for enum, mem in members:
+        forbidden = FAMILY_FORBIDDEN[(enum, mem)]
+        n += 1
+        bad = [x for st in node.body for x in ast.walk(st) if isinstance(x, ast.Name) and forbidden in x.id]
+        res.ob(
+          not bad,
+          f"{key}|{enum}.{mem}|family",
+          Finding(
+            "R-FAMILY.1",
+            f"{key}|{enum}.{mem}|reads-{forbidden}",
+            f"the {enum}.{mem} branch of {key} reads `{bad[0].id if bad else ''}`: the {'gain' if enum == 'GainType' else 'bias'} of type {mem} is a function of {'gainprm' if enum == 'GainType' else 'biasprm'} only (MuJoCo); models whose gainprm and biasprm differ get a wrong actuator force",
+            f"{fi.file}:{bad[0].lineno}" if bad else fi.file,
+          ),
+          sample={"function": key, "branch": f"{enum}.{mem}", "must_not_read": forbidden},
+        )
+  return n
 
 
 def _extra(db, res, tier, scope):
   n = r_clamp.check_clamp_last(res, scope, clamp_tables.CLAMP_LAST, "C03")
   res.floor("clamp-last obligations", n, 4)
+  nf = check_param_families(db, res)
+  res.floor("gain/bias branch family obligations", nf, 6)
 
 
 def run(db, res, tier):
   family_a.run_family(db, res, tier, "C03", extra=_extra)
-  res.rule_text += "; R-CLAMP: qfrc_actuator (jnt_actfrcrange) and the advanced activation (actuator_actrange) are stored as the clamp result itself - nothing is added after the clamp"
+  res.rule_text += "; R-CLAMP: qfrc_actuator (jnt_actfrcrange) and the advanced activation (actuator_actrange) are stored as the clamp result itself - nothing is added after the clamp; R-FAMILY: the GainType.FIXED/AFFINE/MUSCLE branches of the actuator force law and of its velocity derivative read no biasprm, the BiasType.AFFINE/MUSCLE branches read no gainprm"
